@@ -11,6 +11,7 @@ import MoPepGen.Driver.C11
 import MoPepGen.Driver.C13
 import MoPepGen.Driver.C18
 import MoPepGen.Driver.C19
+import MoPepGen.Driver.G
 
 /-- driver state: only the `S` stream keeps one (the stored case of its `set` op) -/
 abbrev St := Option MoPepGen.Driver.S.SCase
@@ -31,6 +32,7 @@ def dispatch (st : St) (line : String) : St × String :=
   | "C16" :: args => (st, MoPepGen.Driver.C16.handle args)
   | "C15" :: args => (st, MoPepGen.Driver.C15.handle args)
   | "C17" :: args => (st, MoPepGen.Driver.C17.handle args)
+  | "G" :: args => (st, MoPepGen.Driver.G.handle args)
   | _ => (st, "bad-stream")
 
 partial def loop (h : IO.FS.Stream) (out : IO.FS.Stream) (st : St) : IO Unit := do
